@@ -33,18 +33,18 @@ func VerifC02Fairness() {
 	T := verifrt.Int("pool")
 	S := verifrt.Dec("total_share")
 	shB := verifrt.Dec("share_b")
-	verifrt.Assume(T.IsPositive() && T.LTE(max))
-	verifrt.Assume(S.GTE(sdkmath.LegacyNewDecFromInt(T)) && S.LTE(sdkmath.LegacyNewDecFromInt(max)))
-	verifrt.Assume(shB.GTE(sdkmath.LegacyOneDec()) && shB.LTE(S))
+	verifrt.Assume(verifrt.All(T.IsPositive(), T.LTE(max)))
+	verifrt.Assume(verifrt.All(S.GTE(sdkmath.LegacyNewDecFromInt(T)), S.LTE(sdkmath.LegacyNewDecFromInt(max))))
+	verifrt.Assume(verifrt.All(shB.GTE(sdkmath.LegacyOneDec()), shB.LTE(S)))
 	other := S.Sub(shB)
-	verifrt.Assume(other.IsZero() || other.GTE(sdkmath.LegacyOneDec()))
+	verifrt.Assume(verifrt.Any(other.IsZero(), other.GTE(sdkmath.LegacyOneDec())))
 	e.PutOperatorAsset(0, asset, assetsInfo(T, S))
 	e.PutDelegation(1, 0, asset, delegAmounts(shB))
 	if other.IsPositive() {
 		e.PutDelegation(2, 0, asset, delegAmounts(other))
 	}
 	x := verifrt.Int("x")
-	verifrt.Assume(x.IsPositive() && x.LTE(max))
+	verifrt.Assume(verifrt.All(x.IsPositive(), x.LTE(max)))
 	e.PutStakerAsset(0, asset, stakerInfo(x))
 
 	// sdk.Int / LegacyDec overflow panics (256 / 315 bits; recovered by DeliverTx) are outside the claim
@@ -59,7 +59,7 @@ func verifC02FairnessBody(e *verifenv.Env, asset string, shB, S sdkmath.LegacyDe
 	verifrt.Assume(e.Deleg.DelegateTo(e.Ctx, verifenv.DelegParams(0, 0, verifenv.LSTAddr(), x, 1)) == nil)
 	p1, _ := e.Assets.GetOperatorSpecifiedAssetInfo(e.Ctx, verifenv.OperatorAddr(0), asset)
 	valB1, err := delegationkeeper.TokensFromShares(shB, p1.TotalShare, p1.TotalAmount)
-	verifrt.Assert(err == nil && absLE1(valB1, valB0), "a delegation changes a co-delegator's redeemable value by at most one base unit")
+	verifrt.Assert(verifrt.All(err == nil, absLE1(valB1, valB0)), "a delegation changes a co-delegator's redeemable value by at most one base unit")
 
 	err = e.Deleg.UndelegateFrom(e.Ctx, verifenv.DelegParams(0, 0, verifenv.LSTAddr(), x, 2))
 	if err != nil {
@@ -73,7 +73,7 @@ func verifC02FairnessBody(e *verifenv.Env, asset string, shB, S sdkmath.LegacyDe
 		}
 	}
 	recs, rerr := e.Deleg.GetStakerUndelegationRecords(e.Ctx, verifenv.StakerID(0), asset)
-	verifrt.Assert(rerr == nil && len(recs) == 1, "one pending record for the undelegation")
+	verifrt.Assert(verifrt.All(rerr == nil, len(recs) == 1), "one pending record for the undelegation")
 	if rerr != nil || len(recs) != 1 {
 		return
 	}
@@ -82,6 +82,6 @@ func verifC02FairnessBody(e *verifenv.Env, asset string, shB, S sdkmath.LegacyDe
 	verifrt.Assert(back.GTE(x.SubRaw(1)), "the delegator gets back at least x-1")
 	p2, _ := e.Assets.GetOperatorSpecifiedAssetInfo(e.Ctx, verifenv.OperatorAddr(0), asset)
 	valB2, err := delegationkeeper.TokensFromShares(shB, p2.TotalShare, p2.TotalAmount)
-	verifrt.Assert(err == nil && absLE1(valB2, valB1), "an undelegation changes a co-delegator's redeemable value by at most one base unit")
+	verifrt.Assert(verifrt.All(err == nil, absLE1(valB2, valB1)), "an undelegation changes a co-delegator's redeemable value by at most one base unit")
 	verifrt.Assert(valB2.GTE(valB0.SubRaw(1)), "after the round trip the co-delegator is not worse off by more than one base unit")
 }
